@@ -16,15 +16,21 @@ from . import mcmc
 from ..report import AnalysisError
 from ..term import Resolver, pmatch, abstract
 
-FLOORS = {"columns-commit-together": 4, "slice-form": 9, "no-squeeze": 9, "parallel-arrays": 1, "interval-cut": 1,
+FLOORS = {"rows-stored-with-own-probability": 10, "columns-commit-together": 4, "slice-form": 9, "no-squeeze": 9, "parallel-arrays": 1, "interval-cut": 1,
           "none-value": 1, "marginal-passthrough": 1}
 GETTER_CLASSES = ("MetropolisChain", "HamiltonianChain", "EnsembleSampler")
 GETTERS = ("get_parameter", "get_probabilities", "get_sample")
 
 
 def run(prog, tier):
+    # "rows together with their own log-probabilities": a row and its log-probability are written together, from one proposal,
+    # by every step function - the clause C14 shares with C03, decided there
+    from .common import borrow
+    shared = borrow(prog, tier, "C03", {"pair-append", "walker-pair", "ensemble-append", "append-provenance"}, "rows-stored-with-own-probability",
+                    "a read-out row can only come with its own log-probability if both were stored together from the same proposal")
     anf.reset()
     obs, info = [], []
+    obs.extend(shared)
     classes = list(GETTER_CLASSES)
     if tier == "thorough":
         for ci in prog.subclasses("MarkovChain"):
